@@ -139,6 +139,16 @@ def property_files(pid):
     return fs
 
 
+def build_targets(pid):
+    """.vo targets of a property: its Property and Corr files and every generated file of that property
+    (tables, abbreviations, translated source) - the case files may import generated files directly."""
+    ts = [os.path.relpath(os.path.join(THEORIES, pid, f), COQDIR) for f in ("Property.vo", "Corr.vo")]
+    g = os.path.join(COQDIR, "gen")
+    if os.path.isdir(g):
+        ts += sorted("gen/" + f[:-2] + ".vo" for f in os.listdir(g) if f.endswith(".v") and f.startswith(pid))
+    return ts
+
+
 def check_proofs(pid):
     """Build the property's theory, recompile Property.v and inspect Print Assumptions.
     Returns dict(ok, obligations, discharged, theorems, axioms, log, failed)."""
@@ -161,7 +171,7 @@ def check_proofs(pid):
         res["log"] = "theorems without Print Assumptions: %s" % missing
         res["failed"] = missing
         return res
-    rc, out = coq_make([os.path.relpath(os.path.join(THEORIES, pid, f), COQDIR) for f in ("Property.vo", "Corr.vo")])
+    rc, out = coq_make(build_targets(pid))
     if rc != 0:
         res["log"] = out[-4000:]
         m = re.findall(r'File "([^"]+)", line (\d+)', out)
